@@ -35,10 +35,19 @@ Notation pr := (pr fm32 fm64).
 Notation pr_list := (pr_list fm32 fm64).
 Notation pr_comp := (pr_comp fm32 fm64).
 
+Lemma pval_S f s : pval (S f) s = pval_body pf32 pf64 (pelems f) (pentries f) (parr f) s.
+Proof. reflexivity. Qed.
+Lemma pelems_S f s : pelems (S f) s = pelems_body (pval f) (pelems f) s.
+Proof. reflexivity. Qed.
+Lemma pentries_S f s : pentries (S f) s = pentries_body (pval f) (pentries f) s.
+Proof. reflexivity. Qed.
+Lemma parr_S f k s : parr (S f) k s = parr_body pf32 pf64 (parr f k) k s.
+Proof. reflexivity. Qed.
+
 Lemma pval_bare fuel w tok t rest : all_ws w = true -> bare_tok tok -> classify tok = Some t ->
   stop is_bare rest -> pval (S fuel) (w ++ tok ++ rest) = Some (t, rest).
 Proof.
-  intros Hw [(c & r & ->) Hb] Hc Hs. cbn [C04.pval]. rewrite (skip_ws_app w _ Hw).
+  intros Hw [(c & r & ->) Hb] Hc Hs. rewrite pval_S. unfold pval_body. rewrite (skip_ws_app w _ Hw).
   pose proof Hb as Hb'. cbn [forallb] in Hb'. apply andb_prop in Hb'. destruct Hb' as [Hcb _].
   cbn [app]. rewrite (skip_ws_cons c _ (bare_not_ws c Hcb)).
   destruct (bare_not_delim c Hcb) as (-> & -> & -> & -> & _). cbn [orb].
@@ -48,7 +57,7 @@ Qed.
 Lemma pval_quoted fuel w q s rest : all_ws w = true -> q = 34 \/ q = 39 ->
   pval (S fuel) (w ++ (q :: escape q s ++ [q]) ++ rest) = Some (TString s, rest).
 Proof.
-  intros Hw Hq. cbn [C04.pval]. rewrite (skip_ws_app w _ Hw). cbn [app]. rewrite <- app_assoc. cbn [app].
+  intros Hw Hq. rewrite pval_S. unfold pval_body. rewrite (skip_ws_app w _ Hw). cbn [app]. rewrite <- app_assoc. cbn [app].
   destruct Hq as [-> | ->]; cbn [skip_ws is_ws N.eqb Pos.eqb orb]; rewrite unq_escape by reflexivity; reflexivity.
 Qed.
 
@@ -107,7 +116,7 @@ Lemma parr_ok k (mkt : Z -> tag) (rng : Z -> bool) ly :
 Proof.
   intros Hcl Hsb Hav Hly. induction l as [|v l IH]; intros i fuel rest NE Hr Hf; [congruence|].
   destruct fuel as [|f]; [simpl in Hf; lia|]. cbn [forallb] in Hr. apply andb_prop in Hr. destruct Hr as [Hv Hr].
-  cbn [pr_arr C04.parr]. pose proof (Hly [i]) as HL. unfold nlay_ok in HL.
+  rewrite parr_S. unfold parr_body. cbn [pr_arr]. pose proof (Hly [i]) as HL. unfold nlay_ok in HL.
   repeat (apply andb_prop in HL; destruct HL as [HL ?]).
   set (L := ly [i]) in *.
   assert (BT: bare_tok (pr_int L v ++ arr_sfx k L)) by (apply bare_tok_app; [apply pr_int_tok | apply Hsb]).
@@ -229,13 +238,15 @@ Lemma pval_array f ly letter k (mkt : Z -> tag) (rng : Z -> bool) l rest :
   = Some (mk_arr k l, ws2 (ly []) ++ rest).
 Proof.
   intros HA HB Hcl Hsb Hav Hly Hr Hf. destruct (nlay_ok_all _ (Hly [])) as (W1 & W2 & W3 & W5 & _).
-  set (L := ly []) in *. unfold pr_array. fold L. rewrite <- !app_assoc. cbn [C04.pval].
+  set (L := ly []) in *. unfold pr_array. fold L. rewrite <- !app_assoc. rewrite pval_S. unfold pval_body.
   rewrite skip_ws_app by auto. cbn [app skip_ws is_ws N.eqb Pos.eqb orb].
-  cbn [span]. rewrite HB. rewrite span_nonbare by reflexivity. cbn [snd starts_semi N.eqb Pos.eqb].
-  cbn [arr_prefix N.eqb Pos.eqb]. rewrite HA.
+  change (letter :: 59 :: ?x) with ([letter] ++ 59 :: x).
+  rewrite (span_app is_bare [letter]); [|cbn [forallb]; rewrite HB; reflexivity|reflexivity].
+  cbn [app snd starts_semi arr_prefix N.eqb Pos.eqb]. rewrite HA.
   destruct l as [|v l].
   - rewrite <- !app_assoc. rewrite skip_ws_app by auto. cbn [app skip_ws is_ws N.eqb Pos.eqb orb]. reflexivity.
-  - assert (HP: exists c3 r3, skip_ws (pr_arr ly 0 k (v :: l) ++ [93] ++ ws2 L ++ rest) = c3 :: r3 /\ (c3 =? 93) = false).
+  - rewrite <- !app_assoc.
+    assert (HP: exists c3 r3, skip_ws (pr_arr ly 0 k (v :: l) ++ [93] ++ ws2 L ++ rest) = c3 :: r3 /\ (c3 =? 93) = false).
     { cbn [pr_arr]. destruct (nlay_ok_all _ (Hly [0%nat])) as (V1 & _).
       rewrite <- !app_assoc. rewrite skip_ws_app by auto.
       destruct (pr_int_tok (ly [0%nat]) v) as [(c & r & ->) Hb]. cbn [forallb] in Hb. apply andb_prop in Hb.
@@ -257,6 +268,30 @@ Lemma arr_sfx_bare k L : forallb is_bare (arr_sfx k L) = true.
 Proof.
   unfold arr_sfx. destruct (k =? 0); [apply sfx_bare; reflexivity|].
   destruct (k =? 1); [|apply sfx_bare; reflexivity]. destruct (aisfx L); [apply sfx_bare|]; reflexivity.
+Qed.
+
+Lemma pr_list_cons ly i t r : pr_list ly i (LCons t r) =
+  pr (sub ly i) t ++ match r with LNil => [] | _ => 44 :: pr_list ly (S i) r end.
+Proof. reflexivity. Qed.
+Lemma pr_comp_cons ly i k t r : pr_comp ly i (CCons k t r) =
+  kws1 (ly [i]) ++ pr_str (kqs (ly [i])) k ++ kws2 (ly [i]) ++ 58 :: pr (sub ly i) t
+    ++ match r with CNil => [] | _ => 44 :: pr_comp ly (S i) r end.
+Proof. reflexivity. Qed.
+Lemma pr_TList ly l : pr ly (TList l) =
+  ws1 (ly []) ++ (91 :: (match l with LNil => ws3 (ly []) | _ => pr_list ly 0 l end) ++ [93]) ++ ws2 (ly []).
+Proof. reflexivity. Qed.
+Lemma pr_TCompound ly c : pr ly (TCompound c) =
+  ws1 (ly []) ++ (123 :: (match c with CNil => ws3 (ly []) | _ => pr_comp ly 0 c end) ++ [125]) ++ ws2 (ly []).
+Proof. reflexivity. Qed.
+
+Lemma semi_ws_sep w c x : all_ws w = true -> is_bare c = false -> (c =? 59) = false ->
+  starts_semi (snd (span is_bare (w ++ c :: x))) = false.
+Proof.
+  intros Hw Hc H59. destruct w as [|c0 w].
+  - cbn [app]. rewrite span_nonbare by auto. exact H59.
+  - unfold all_ws in Hw. cbn [forallb] in Hw. apply andb_prop in Hw. destruct Hw as [Hc0 _].
+    cbn [app]. rewrite span_nonbare by (apply ws_not_bare; auto). cbn [snd starts_semi].
+    apply (ws_not_delim c0 Hc0).
 Qed.
 
 Lemma roundtrip_all : (forall t, P t) /\ (forall l, P0 l) /\ (forall c, P1 c).
@@ -297,26 +332,142 @@ Proof.
     apply pval_str; auto. apply stop_ws_app; auto.
   - (* List *) intros l IH ly fuel rest Hly Hwf Hf Hs. destruct fuel as [|f]; [simpl in Hf; lia|].
     cbn [wf] in Hwf. apply andb_prop in Hwf. destruct Hwf as [Hh Hwl].
-    destruct (nlay_ok_all _ (Hly [])) as (W1 & W2 & W3 & _). cbn [C04.pr]. set (L := ly []) in *.
-    rewrite <- !app_assoc. cbn [C04.pval]. rewrite skip_ws_app by auto.
+    destruct (nlay_ok_all _ (Hly [])) as (W1 & W2 & W3 & _). rewrite pr_TList. set (L := ly []) in *.
+    rewrite <- !app_assoc. rewrite pval_S. unfold pval_body. rewrite skip_ws_app by auto.
     cbn [app skip_ws is_ws N.eqb Pos.eqb orb].
     destruct l as [|t r].
-    + assert (HP: head_prop (ws3 L ++ 93 :: ws2 L ++ rest)).
-      { split.
-        - destruct (ws3 L) as [|c0 w] eqn:E3.
-          + cbn [app]. rewrite span_nonbare by reflexivity. reflexivity.
-          + unfold all_ws in W3. cbn [forallb] in W3. apply andb_prop in W3. destruct W3 as [Hc0 _].
-            cbn [app]. rewrite span_nonbare by (apply ws_not_bare; auto). cbn [snd starts_semi].
-            apply (ws_not_delim c0 Hc0).
-        - exists 0, []. split; [|reflexivity]. exfalso. exact I. }
-      admit.
-    + admit.
-  - admit.
-  - admit.
-  - admit.
-  - admit.
-  - admit.
-  - admit.
-  - admit.
-Abort.
+    + rewrite <- !app_assoc. cbn [app]. rewrite semi_ws_sep by (auto; reflexivity).
+      rewrite skip_ws_app by auto. cbn [skip_ws is_ws N.eqb Pos.eqb orb]. reflexivity.
+    + assert (EX: exists x, (pr_list ly 0 (LCons t r) ++ [93]) ++ ws2 L ++ rest = pr (sub ly 0) t ++ x /\ sep_ok x).
+      { rewrite pr_list_cons. rewrite <- !app_assoc. eexists. split; [reflexivity|].
+        destruct r; cbn; split; reflexivity. }
+      destruct EX as (x & EX & Hx).
+      assert (Hwt: wf t = true) by (cbn [wf_list] in Hwl; apply andb_prop in Hwl; tauto).
+      destruct (pr_head (sub ly 0) t x (lay_ok_sub ly 0 Hly) Hwt Hx) as [HS (c1 & r1 & HK & H93)].
+      rewrite EX, HS, HK, H93. rewrite <- EX. rewrite <- !app_assoc. cbn [app].
+      rewrite (IH ly 0%nat f (ws2 L ++ rest)); auto; [|discriminate|cbn [need need_list] in Hf |- *; lia].
+      rewrite Hh. reflexivity.
+  - (* Compound *) intros c IH ly fuel rest Hly Hwf Hf Hs. destruct fuel as [|f]; [simpl in Hf; lia|].
+    cbn [wf] in Hwf.
+    destruct (nlay_ok_all _ (Hly [])) as (W1 & W2 & W3 & _). rewrite pr_TCompound. set (L := ly []) in *.
+    rewrite <- !app_assoc. rewrite pval_S. unfold pval_body. rewrite skip_ws_app by auto.
+    cbn [app skip_ws is_ws N.eqb Pos.eqb orb].
+    destruct c as [|k t r].
+    + rewrite <- !app_assoc. rewrite skip_ws_app by auto. cbn [app skip_ws is_ws N.eqb Pos.eqb orb]. reflexivity.
+    + assert (HK: exists c1 r1, skip_ws ((pr_comp ly 0 (CCons k t r) ++ [125]) ++ ws2 L ++ rest) = c1 :: r1 /\ (c1 =? 125) = false).
+      { rewrite pr_comp_cons. destruct (nlay_ok_all _ (Hly [0%nat])) as (_ & _ & _ & _ & K1 & _).
+        rewrite <- !app_assoc. rewrite skip_ws_app by auto.
+        match goal with |- context [pr_str ?st ?s ++ ?y] => destruct (pr_str_head st s y) as (c1 & r1 & E & Hws & H125) end.
+        rewrite E. rewrite skip_ws_cons by auto. eauto. }
+      destruct HK as (c1 & r1 & -> & ->). rewrite <- !app_assoc. cbn [app].
+      rewrite (IH ly 0%nat f (ws2 L ++ rest)); auto; [discriminate|cbn [need need_comp] in Hf |- *; lia].
+  - (* IntArray *) intros l ly fuel rest Hly Hwf Hf Hs. destruct fuel as [|f]; [simpl in Hf; lia|]. cbn [C04.pr].
+    apply (pval_array f ly 73 1 TInt (in_rng 32)); auto; try reflexivity.
+    + intros L v R. unfold arr_sfx. cbn [N.eqb Pos.eqb].
+      destruct (aisfx L); [apply classify_int_sfx | apply classify_int_plain]; auto.
+    + intros L. apply arr_sfx_bare.
+    + simpl in Hf. lia.
+  - (* LongArray *) intros l ly fuel rest Hly Hwf Hf Hs. destruct fuel as [|f]; [simpl in Hf; lia|]. cbn [C04.pr].
+    apply (pval_array f ly 76 2 TLong (in_rng 64)); auto; try reflexivity.
+    + intros L v R. apply classify_long; auto.
+    + intros L. apply arr_sfx_bare.
+    + simpl in Hf. lia.
+  - (* LNil *) intros ly i fuel rest _ _ NE. congruence.
+  - (* LCons *) intros t IHt r IHr ly i fuel rest Hly Hwf _ Hf. destruct fuel as [|f]; [simpl in Hf; lia|].
+    cbn [wf_list] in Hwf. apply andb_prop in Hwf. destruct Hwf as [Hwt Hwr].
+    cbn [need_list] in Hf. destruct (nlay_ok_all _ (Hly [i])) as (_ & V2 & _).
+    rewrite pelems_S. unfold pelems_body. rewrite pr_list_cons. destruct r as [|t2 r2].
+    + rewrite app_nil_r. rewrite (IHt (sub ly i) f (93 :: rest)); auto; [|apply lay_ok_sub; auto|lia|reflexivity].
+      unfold sub at 1. rewrite skip_ws_app by auto. cbn [skip_ws is_ws N.eqb Pos.eqb orb]. reflexivity.
+    + rewrite <- app_assoc. cbn [app].
+      rewrite (IHt (sub ly i) f); auto; [|apply lay_ok_sub; auto|lia|reflexivity].
+      unfold sub at 1. rewrite skip_ws_app by auto. cbn [skip_ws is_ws N.eqb Pos.eqb orb].
+      rewrite (IHr ly (S i) f rest); auto; [discriminate|lia].
+  - (* CNil *) intros ly i fuel rest _ _ NE. congruence.
+  - (* CCons *) intros k t IHt r IHr ly i fuel rest Hly Hwf _ Hf. destruct fuel as [|f]; [simpl in Hf; lia|].
+    cbn [wf_comp] in Hwf. apply andb_prop in Hwf. destruct Hwf as [Hwt Hwr].
+    cbn [need_comp] in Hf. destruct (nlay_ok_all _ (Hly [i])) as (_ & V2 & _ & _ & K1 & K2).
+    rewrite pentries_S. unfold pentries_body. rewrite pr_comp_cons. set (K := ly [i]) in *.
+    rewrite <- !app_assoc. rewrite skip_ws_app by auto.
+    match goal with |- context [pkey (skip_ws (pr_str ?st ?s ++ ?y))] =>
+      destruct (pr_str_head st s y) as (c1 & r1 & E & Hws & _); rewrite E; rewrite skip_ws_cons by auto; rewrite <- E;
+      rewrite (pkey_str st s y) by (apply stop_ws_app; [auto|reflexivity]) end.
+    rewrite skip_ws_app by auto. cbn [app skip_ws is_ws N.eqb Pos.eqb orb].
+    destruct r as [|k2 t2 r2].
+    + rewrite app_nil_r. rewrite (IHt (sub ly i) f (125 :: rest)); auto; [|apply lay_ok_sub; auto|lia|reflexivity].
+      unfold sub at 1. fold K. rewrite skip_ws_app by auto. cbn [skip_ws is_ws N.eqb Pos.eqb orb]. reflexivity.
+    + rewrite <- app_assoc. cbn [app].
+      rewrite (IHt (sub ly i) f); auto; [|apply lay_ok_sub; auto|lia|reflexivity].
+      unfold sub at 1. fold K. rewrite skip_ws_app by auto. cbn [skip_ws is_ws N.eqb Pos.eqb orb].
+      rewrite (IHr ly (S i) f rest); auto; [discriminate|lia].
+Qed.
+
+(* ------------------------------------------------------------------ fuel: the text is longer than the need *)
+Lemma bare_tok_len tok : bare_tok tok -> (1 <= length tok)%nat.
+Proof. intros [(c & r & ->) _]. simpl. lia. Qed.
+
+Lemma pr_arr_len ly k l i : (length l <= length (pr_arr ly i k l))%nat.
+Proof.
+  revert i. induction l as [|v l IH]; intros i; [simpl; lia|]. cbn [pr_arr length].
+  rewrite !app_length. pose proof (bare_tok_len _ (pr_int_tok (ly [i]) v)).
+  destruct l as [|v2 l]; [simpl; lia|]. specialize (IH (S i)). cbn [length] in *. lia.
+Qed.
+Lemma pr_array_len ly letter k l : (S (length l) <= length (pr_array ly letter k l))%nat.
+Proof.
+  unfold pr_array. cbn [length]. rewrite app_length. pose proof (pr_arr_len ly k l 0).
+  destruct l; cbn [length] in *; lia.
+Qed.
+Lemma pr_str_len st s : (1 <= length (pr_str st s))%nat.
+Proof.
+  destruct (pr_str_shape st s) as [[-> W] | (q & _ & ->)].
+  - apply bare_tok_len, is_word_bare, W.
+  - simpl. lia.
+Qed.
+
+Definition Q (t : tag) : Prop := forall ly, wf t = true -> (need t <= length (pr ly t))%nat.
+Definition Q0 (l : tlist) : Prop := forall ly i, wf_list l = true -> (need_list l <= S (length (pr_list ly i l)))%nat.
+Definition Q1 (c : tcomp) : Prop := forall ly i, wf_comp c = true -> (need_comp c <= S (length (pr_comp ly i c)))%nat.
+
+Lemma need_le_all : (forall t, Q t) /\ (forall l, Q0 l) /\ (forall c, Q1 c).
+Proof.
+  apply tag_mutind; unfold Q, Q0, Q1.
+  - intros v ly _. cbn [C04.pr need]. rewrite !app_length. pose proof (bare_tok_len _ (pr_int_tok (ly []) v)). lia.
+  - intros v ly _. cbn [C04.pr need]. rewrite !app_length. pose proof (bare_tok_len _ (pr_int_tok (ly []) v)). lia.
+  - intros v ly _. cbn [C04.pr need]. rewrite !app_length. pose proof (bare_tok_len _ (pr_int_tok (ly []) v)). lia.
+  - intros v ly _. cbn [C04.pr need]. rewrite !app_length. pose proof (bare_tok_len _ (pr_int_tok (ly []) v)). lia.
+  - intros b ly Hwf. cbn [C04.pr need]. rewrite !app_length.
+    pose proof (bare_tok_len _ (pr_flit_tok (ly []) _ (proj1 (H32 b Hwf)))). lia.
+  - intros b ly Hwf. cbn [C04.pr need]. rewrite !app_length.
+    pose proof (bare_tok_len _ (pr_flit_tok (ly []) _ (proj1 (H64 b Hwf)))). lia.
+  - intros l ly _. cbn [C04.pr need]. rewrite !app_length. pose proof (pr_array_len ly 66 0 l). lia.
+  - intros s ly _. cbn [C04.pr need]. rewrite !app_length. pose proof (pr_str_len (qs (ly [])) s). lia.
+  - intros l IH ly Hwf. cbn [wf] in Hwf. apply andb_prop in Hwf. destruct Hwf as [_ Hwl].
+    rewrite pr_TList. cbn [need]. rewrite !app_length. cbn [length]. rewrite app_length. cbn [length].
+    destruct l as [|t r]; [cbn [need_list]; lia|]. specialize (IH ly 0%nat Hwl). lia.
+  - intros c IH ly Hwf. cbn [wf] in Hwf.
+    rewrite pr_TCompound. cbn [need]. rewrite !app_length. cbn [length]. rewrite app_length. cbn [length].
+    destruct c as [|k t r]; [cbn [need_comp]; lia|]. specialize (IH ly 0%nat Hwf). lia.
+  - intros l ly _. cbn [C04.pr need]. rewrite !app_length. pose proof (pr_array_len ly 73 1 l). lia.
+  - intros l ly _. cbn [C04.pr need]. rewrite !app_length. pose proof (pr_array_len ly 76 2 l). lia.
+  - intros ly i _. cbn [need_list]. lia.
+  - intros t IHt r IHr ly i Hwf. cbn [wf_list] in Hwf. apply andb_prop in Hwf. destruct Hwf as [Hwt Hwr].
+    rewrite pr_list_cons. cbn [need_list]. rewrite app_length. specialize (IHt (sub ly i) Hwt).
+    specialize (IHr ly (S i) Hwr). destruct r; cbn [need_list length] in *; lia.
+  - intros ly i _. cbn [need_comp]. lia.
+  - intros k t IHt r IHr ly i Hwf. cbn [wf_comp] in Hwf. apply andb_prop in Hwf. destruct Hwf as [Hwt Hwr].
+    rewrite pr_comp_cons. cbn [need_comp]. rewrite !app_length. cbn [length]. rewrite app_length.
+    specialize (IHt (sub ly i) Hwt). specialize (IHr ly (S i) Hwr). destruct r; cbn [need_comp length] in *; lia.
+Qed.
+
+Lemma skip_ws_all w : all_ws w = true -> skip_ws w = [].
+Proof. intros H. rewrite <- (app_nil_r w). rewrite skip_ws_app by auto. reflexivity. Qed.
+
+(* parse (print layout t) = t, for every layout and every well-formed tree *)
+Theorem spec_roundtrip ly t : lay_ok ly -> wf t = true -> parse pf32 pf64 (pr ly t) = Some t.
+Proof.
+  intros Hly Hwf. unfold parse. destruct roundtrip_all as (HP & _). destruct need_le_all as (HQ & _).
+  pose proof (HP t ly (S (length (pr ly t))) [] Hly Hwf) as H. rewrite app_nil_r in H.
+  rewrite H; [|specialize (HQ t ly Hwf); lia|exact I].
+  rewrite app_nil_r. destruct (nlay_ok_all _ (Hly [])) as (_ & W2 & _). rewrite skip_ws_all by auto. reflexivity.
+Qed.
 End RT.
